@@ -505,8 +505,8 @@ theorem C30_witness_rerun_partial_zip :
 
 /-- WITNESS (D39): the first run succeeds and agrees with the reference; the second run raises AttributeError. -/
 theorem C30_witness_rerun_name_clash :
-    rerunSummary rerunNameClash = some (.ok [(0, 2), (1, 1), (2, 1)] [[[], [], [], []]], .crash .attributeError) ∧
-    specSummary rerunNameClash = .ok [(0, 2), (1, 1), (2, 1)] [[[], [], [], []]] := by decide +kernel
+    rerunSummary rerunNameClash = some (.ok [(0, 2), (1, 1), (2, 1)] [[[], [], [], [], [], []]], .crash .attributeError) ∧
+    specSummary rerunNameClash = .ok [(0, 2), (1, 1), (2, 1)] [[[], [], [], [], [], []]] := by decide +kernel
 
 /-- The unrestricted statement "a second run over the same objects gives the first run's result" is false. -/
 theorem C30_create_graph_not_idempotent :
